@@ -14,6 +14,13 @@ THEOREMS = ["EngineModel.Properties.C05." + t for t in [
     "C05_v1_throw_class",
     "C05_decode_steps", "C05_decode_steps_v1_beat_abs", "C05_decode_steps_faithful", "C05_decode_steps_shape_v2_loops",
     "C05_uncompress_total", "C05_uncompress_no_ub", "C05_uncompress_old_end_counterexample", "C05_unz_safe",
+    "C05_checked_arith_exact", "C05_v1_beat_encode_safe", "C05_missing_guard_overflows_counterexample",
+    "C05_typed_arith_in_range",
+    "C05_decode_steps_shape_v2_cues", "C05_decode_steps_shape_v2_grid", "C05_decode_steps_shape_v2_beat",
+    "C05_decode_steps_shape_v1_cues", "C05_decode_steps_shape_v1_loops", "C05_decode_steps_shape_v1_grid",
+    "C05_decode_steps_shape_v1_beat", "C05_decode_steps_shape_v1_ovw", "C05_decode_steps_shape_v1_hires",
+    "C05_iteration_consumes", "C05_loop_consumes_exact", "C05_decode_reads_faithful", "C05_iteration_reads",
+    "C05_decode_reads",
 ]]
 ASSUMPTIONS = [
     "zlib is not modelled: the theorem about the decompression loops is generic in an inflate oracle that honours the "
@@ -21,14 +28,21 @@ ASSUMPTIONS = [
     "potential growing at most linearly with the input); the tie runs the real libz behind a link-time wrapper that "
     "checks every region handed to inflate() with __asan_region_is_poisoned and counts calls (watchdog)",
     "memory safety inside zlib / libstdc++ is not modelled; what is modelled is that the library honours their preconditions",
+    "a payload is a C++ byte vector, i.e. has fewer than 2^63 bytes (std::vector<std::byte>::max_size() = PTRDIFF_MAX): "
+    "explicit hypothesis `bs.length < maxCount` of the theorems about the three waveform decoders, whose length test "
+    "computes w * (n + 1) in int64_t (checked in the Model)",
     "allocations proportional to the input size succeed (std::bad_alloc would be an exception, not undefined behaviour)",
     "the result-level model of zlib_uncompress used by the tie replaces the loops by the independent Lean inflate "
     "(EngineModel/Zlib/Inflate.lean); its agreement with libz is sampled, not proved",
 ]
 MANIFEST = dict(
     text="Lean theorems: no byte string of any length makes a Model decoder produce an undefined-behaviour outcome "
-         "(every read past the buffer, every signed overflow is an explicit `ub` outcome of the cursor monad, and the "
-         "theorems show it is unreachable), the only exceptions are derived from std::exception; the two nested loops "
+         "(every read past the buffer is an explicit `ub oob_read` outcome of the cursor monad; every int64_t/int sum, "
+         "difference and product whose operands are not bounded by their types is a checked operation with outcome "
+         "`ub signed_overflow` — the waveform length tests w*(n+1), 24*count of the 1.x beat grid, the int index "
+         "difference of the 1.x encode_beatgrid — and the theorems show both unreachable: under the guards of the C++ "
+         "each checked Model function equals its reading in unbounded Int, with concrete overflow witnesses for each "
+         "guard removed), the only exceptions are derived from std::exception; the two nested loops "
          "of zlib_uncompress terminate within an explicit fuel bound linear in the input and never hand zlib a region "
          "outside the input vector, for every inflate oracle honouring an explicit call contract (structure parameter, "
          "no axiom); the pre-fix end pointer is proved to violate it. Tie: the sanitizer build of the real decoders "
